@@ -16,7 +16,8 @@ func init() {
 		Level: "exploration",
 		Rule: "steady-state operations executed on real typed buffers prepared beforehand: Sample/SetSample, accessors, AppendSample (full and appending, inside a pool cycle), Append within capacity, pool Get/Put cycles (with and without allocated length), channel views, Slice (result forced to escape) for all 13 element types; Write/Read/WriteStriped/ReadStriped for all 169 type pairs; all 169 conversion instantiations (operands of equal length, source longer, destination longer); channel counts {1,2,7,8} (thorough: {1,2,3,5,7,8}) x lengths {0,1,64,300} (thorough: {0,1,64,4096}); windowed destinations with spare capacity; " +
 			"monitor: runtime.MemStats.Mallocs delta around N=200 executions after a warm-up run, GOMAXPROCS(1), GC disabled, verdict on the minimum of up to 6 repetitions; must be 0 (Slice: at most one constant-size header per call); a deliberately allocating control operation must be detected in every run; " +
-			"distinct = distinct (operation, instantiation, channels, length) tuples; non-trivial = length > 0 (the operation's loop body runs)",
+			"distinct = distinct (operation, instantiation, channels, length) tuples; non-trivial = length > 0 (the operation's loop body runs); " +
+			"also: a long-lived pool emptied by collections, a cycle starting 1.25 s after the previous put, a filled buffer put back as a shorter slice, tail destinations, element-type extremes as conversion inputs, two appends of sources ending in a partial frame",
 		Assume: []string{"an allocation inside an operation is deterministic, a stray runtime allocation is not: hence the minimum over repetitions", "plain (non-race) build only"},
 		Plan:   func(tier string) []Batch { return split("allocs", 13, 1200) },
 		Run:    runC18,
